@@ -72,6 +72,8 @@ Thm_Dict == [][zlast'.q = "dict" =>
    /\ Export(ChOfArray(t.p), t.attrs, 1, DefaultOpts) = z.d
    \* import(export(t)) is t itself when nothing is cut, reordered or filtered and the whole tree is exported
    /\ (z.s = 1 /\ z.o = [DefaultOpts EXCEPT !.ci.key = KeyFn]) => (t.p = p /\ t.attrs = z.attrs)
+   \* the flat form of a dictionary (what the judge is given) denotes the same tree
+   /\ ImportFlat(FlatOf(z.d, 0)) = t
    \* the imported tree always has the shape of the exported (sub)tree: as many nodes as dictionaries
    /\ Len(t.p) = Len(t.attrs) /\ t.p[1] = 0
    \* maxlevel: the start node is always exported; nothing at relative depth >= maxlevel
